@@ -15,7 +15,7 @@ from specs import inotify_table as T
 from specs import c04
 
 PROP = "C11"
-GROUNDABLE = False
+GROUNDABLE = True
 BATTERY = "c11_battery.py"
 FILE = "watchdog/observers/inotify.py"
 FILE_C = "watchdog/observers/inotify_c.py"
